@@ -95,8 +95,8 @@ fn get_exit_code(exit_code: i32, test_code: i32) -> (res: i32)
             ==> (res == SUCCESS_STATUS_CODE || res == TEST_ERROR_STATUS_CODE || res == TEST_FAILURE_STATUS_CODE),
 {
     match exit_code {
-        TEST_ERROR_STATUS_CODE => exit_code,
         SUCCESS_STATUS_CODE => test_code,
+        TEST_ERROR_STATUS_CODE => exit_code,
         TEST_FAILURE_STATUS_CODE => {
             if test_code == TEST_ERROR_STATUS_CODE {
                 TEST_ERROR_STATUS_CODE
